@@ -588,8 +588,8 @@ def rule_upgrade_trace(ctx):
         b = prog.bodies.get(prog.home(name), b0)
         if not b.locals[0]["ty"].startswith("std::option::Option<strong::Snapshot<"):
             continue
-        for (bi, t_, c) in b0.calls():
-            tg = c.target or ""
+        # (called, or handed to a combinator as a function item: `.map_or(true, RcInner::is_not_destructed)`)
+        for tg in [c.target or "" for (bi, t_, c) in b0.calls()] + [path for (bi, path) in b0.fn_refs()]:
             if tg.startswith("utils::RcInner::<T>::") and tg in prog.bodies and prog.bodies[tg].locals[0]["ty"] == "bool":
                 helpers.add(tg)
     n = 0
@@ -636,7 +636,8 @@ def _is_null_test(q):
         inner = t[1]
         if isinstance(inner, tuple) and inner[0] == "call" and norm(inner[1]) in (
                 "std::ptr::mut_ptr::as_ref", "std::ptr::mut_ptr::as_mut", "std::ptr::const_ptr::as_ref",
-                "ebr_impl::pointers::Tagged::as_ref"):
+                "ebr_impl::pointers::Tagged::as_ref", "ebr_impl::pointers::Tagged::as_mut"):
+            # (inside Tagged, BIT-DELEGATION packed-null-test shows that the test behind them is the one on the untagged address)
             return True
     if isinstance(t, tuple) and t[0] == "call" and norm(t[1]).endswith("::is_null"):
         return True
